@@ -769,3 +769,5 @@ for _n in range(1, 7):
     B("C19", _n)
 for _n in range(1, 7):
     B("C05", _n)
+for _n in range(1, 7):
+    B("C20", _n)
